@@ -41,6 +41,9 @@ func checkC13(c *Ctx) {
 	c.Floor("READLINE-PREFIX", 2)
 	c.unreadBeforeRescan("UNREAD-RESCAN", c.Func("io/nexus", "Scanner", "Scan"), "Converting a tree between Newick, Nexus ... and back gives the same tree")
 	c.Floor("UNREAD-RESCAN", 1)
+	c.Decides("PARENT-BY-IDENTITY: the recursive writers of the PhyloXML, Nextstrain and Nexus packages that carry the node they came from skip the way back by comparing each neighbour with it, never by position")
+	c.parentByIdentity("PARENT-BY-IDENTITY", c.AllFuncs("io/phyloxml", "io/nextstrain", "io/nexus"), "Converting a tree between Newick, Nexus ... and back gives the same tree")
+	c.Floor("PARENT-BY-IDENTITY", 1)
 	c.Decides("APPEND-ALWAYS (go/cfg): Nexus.AddTree appends to its list of trees and to its list of names on every path: no tree of a file replaces another one")
 	c.appendAlways("APPEND-ALWAYS", c.Func("io/nexus", "Nexus", "AddTree"), []string{"trees", "treeNames"}, "Every tree of a multi-tree file is delivered in file order ... none is silently skipped")
 	c.Floor("APPEND-ALWAYS", 2)
